@@ -278,6 +278,10 @@ class C04(Prop):
                 except Exception as e:
                     fail = crash_signature(e)
                     fail = (fail[0], fail[1][:300] + ' (step %d)' % i)
+                    if debug and isinstance(e, AssertionError) and '_assert_nodes_are_equal' in fail[0]:
+                        # the library's own cross-check observed what the comparator below would observe
+                        fail = ('incremental-tree-differs' + ('+old-text-has-double-backslash-continuation' if trigger else ''),
+                                'DEBUG_DIFF_PARSER assertion: ' + fail[1])
                     break
                 if i > 0 and STATS['copy'] and STATS['parse'] and text != texts[i - 1]:
                     nontrivial = True
